@@ -400,7 +400,7 @@ namespace sweep
                 const uint64_t off = j.seed % s;
                 const uint64_t rowspan = (uint64_t)nl * s, chunkspan = rowspan * 4096;
                 const uint64_t nchunks = ((1ull << 32) + chunkspan - 1) / chunkspan;
-                for (uint64_t c = shard; c < nchunks; c += nshards)
+                for (uint64_t c = shard; c < nchunks && stuckrows < 6; c += nshards)
                 {
                     uint64_t cb = c * chunkspan;
                     // skip chunks wholly outside the requested magnitude range / signs
@@ -414,6 +414,9 @@ namespace sweep
                             consider(base, s, 1e30, 0, true);
                             ++stuckrows;
                             r0 = r0 + 1;
+                            // a kernel that hangs on a whole CLASS of arguments would cost a watchdog period per row: a few stuck rows say it all
+                            if (stuckrows >= 6)
+                                break;
                             continue;
                         }
                         in_chunk = 1;
@@ -458,6 +461,8 @@ namespace sweep
                         consider(base, step, 1e30, 0, true);
                         ++stuckrows;
                         r0 = r0 + 1;
+                        if (stuckrows >= 6)
+                            break;
                         continue;
                     }
                     in_chunk = 1;
